@@ -616,3 +616,201 @@ Proof.
     unfold gthr in R.
     eapply linv_eff; [apply eff_yield; [apply eff_refl|lia]|]. eapply lv_yield; eassumption.
 Qed.
+
+(* ================================================================ part 3: initial state, reachability, theorems *)
+Lemma init_thrs_len n from : length (init_thrs n from) = n.
+Proof. revert from; induction n as [|n IH]; intros from; cbn; auto. Qed.
+
+Lemma nth_init_thrs n : forall from t, t < n -> nth t (init_thrs n from) dflt_thr = mkThr (TRun (from + t)) [].
+Proof.
+  induction n as [|n IH]; intros from [|t] L; cbn [init_thrs nth]; try lia.
+  - rewrite Nat.add_0_r. reflexivity.
+  - rewrite IH by lia. f_equal. f_equal. lia.
+Qed.
+
+Lemma occ_init n : forall from c, occ (init_thrs n from) c = if Nat.leb from c && Nat.ltb c (from + n) then 1 else 0.
+Proof.
+  induction n as [|n IH]; intros from c; cbn [init_thrs occ].
+  - destruct (Nat.leb_spec from c), (Nat.ltb_spec c (from + 0)); cbn; try reflexivity; lia.
+  - rewrite IH. unfold wt. cbn [run tq wrun count_occ].
+    destruct (Nat.eqb_spec from c), (Nat.leb_spec (S from) c), (Nat.ltb_spec c (S from + n)),
+      (Nat.leb_spec from c), (Nat.ltb_spec c (from + S n)); cbn; try reflexivity; lia.
+Qed.
+
+Lemma init_pc_lt ops c : c < length (tasks (init ops)) -> tpc (gtask (init ops) c) = PStep.
+Proof.
+  intros L. unfold gtask. unfold init in *. cbn [tasks] in *.
+  pose proof (nth_In _ dflt_task L) as H. apply in_flat_map in H. destruct H as (l & _ & H).
+  eapply decode_task_pc. exact H.
+Qed.
+
+Lemma init_linv ops : LInv (init ops).
+Proof.
+  unfold LInv. set (n := length (tasks (init ops))).
+  assert (TH : thrs (init ops) = init_thrs n 0) by reflexivity. rewrite TH.
+  assert (NT : forall t, nth t (init_thrs n 0) dflt_thr = if Nat.ltb t n then mkThr (TRun t) [] else dflt_thr).
+  { intros t. destruct (Nat.ltb_spec t n); [rewrite nth_init_thrs by assumption; reflexivity|].
+    apply nth_overflow. rewrite init_thrs_len. assumption. }
+  assert (DM : forall c, n <= c -> tvs (init ops) c = dflt_tv).
+  { intros c Lc. unfold tvs, gtask. rewrite nth_overflow by exact Lc. reflexivity. }
+  constructor.
+  - apply init_thrs_len.
+  - intros c K. rewrite occ_init. cbn [Nat.leb andb Nat.add].
+    destruct (Nat.ltb_spec c n) as [Lc|Lc].
+    + unfold tvs, tvw, pf. cbn [fst snd]. rewrite init_pc_lt by exact Lc. reflexivity.
+    + rewrite DM in K by exact Lc. discriminate.
+  - intros t c. rewrite NT. destruct (Nat.ltb t n); cbn [run dflt_thr]; [|discriminate]. intros E. inversion E. auto.
+  - intros t c. rewrite NT. destruct (Nat.ltb t n); cbn [tq dflt_thr]; contradiction.
+  - intros t Lt K. left. rewrite NT. assert (Q : Nat.ltb t n = true) by (apply Nat.ltb_lt; exact Lt). rewrite Q.
+    cbn [run tq]. repeat split. unfold tvs, tvw, pf. cbn [fst snd]. rewrite init_pc_lt by exact Lt. discriminate.
+  - intros t. rewrite NT. destruct (Nat.ltb t n); cbn [run tq dflt_thr]; [discriminate|reflexivity].
+  - intros c Lc. rewrite DM by exact Lc. split; reflexivity.
+Qed.
+
+Lemma reachable_linv ops s : reachable ops s -> LInv s.
+Proof.
+  induction 1 as [|s t R IH En]; [apply init_linv|].
+  apply step_linv; [eapply reachable_inv; exact R|exact IH|exact En].
+Qed.
+
+(* ---------- a coroutine is in at most one place ---------- *)
+Lemma gthr_out s t : length (thrs s) <= t -> gthr s t = dflt_thr.
+Proof. intros. unfold gthr. apply nth_overflow. assumption. Qed.
+
+Lemma one_place ops s c : reachable ops s -> tk (gtask s c) = KCoro ->
+  occ (thrs s) c = (if live (tpc (gtask s c)) then 1 else 0) /\
+  (forall t t', run (gthr s t) = TRun c -> run (gthr s t') = TRun c -> t = t') /\
+  (forall t t', run (gthr s t) = TRun c -> ~ In c (tq (gthr s t'))) /\
+  (forall t t', In c (tq (gthr s t)) -> In c (tq (gthr s t')) -> t = t') /\
+  (forall t, count_occ Nat.eq_dec (tq (gthr s t)) c <= 1) /\
+  (live (tpc (gtask s c)) = false -> forall t, run (gthr s t) <> TRun c /\ ~ In c (tq (gthr s t))).
+Proof.
+  intros R K. pose proof (reachable_linv _ _ R) as LI. pose proof (l_occ _ _ _ LI c K) as O.
+  pose proof (l_len _ _ _ LI) as Ln. unfold tvs, tvw, pf in O. cbn [fst snd] in O.
+  assert (OUT : forall t, length (thrs s) <= t -> run (gthr s t) = TIdle /\ tq (gthr s t) = [])
+    by (intros t G; rewrite gthr_out by exact G; split; reflexivity).
+  assert (W1 : forall t, run (gthr s t) = TRun c -> t < length (thrs s) /\ 1 <= wt c (gthr s t)).
+  { intros t E. destruct (le_lt_dec (length (thrs s)) t) as [G|G]; [destruct (OUT t G); congruence|].
+    split; [exact G|]. unfold wt. rewrite E. cbn [wrun]. rewrite Nat.eqb_refl. lia. }
+  assert (W2 : forall t, In c (tq (gthr s t)) -> t < length (thrs s) /\ 1 <= wt c (gthr s t)).
+  { intros t E. destruct (le_lt_dec (length (thrs s)) t) as [G|G]; [destruct (OUT t G) as [_ Z]; rewrite Z in E; contradiction|].
+    split; [exact G|]. unfold wt. apply (count_occ_In Nat.eq_dec) in E. lia. }
+  assert (LE : occ (thrs s) c <= 1) by (rewrite O; destruct (live _); lia).
+  assert (TWO : forall t t', t < length (thrs s) -> t' < length (thrs s) -> 1 <= wt c (gthr s t) -> 1 <= wt c (gthr s t') -> t = t').
+  { intros t t' G G' A B. destruct (Nat.eq_dec t t') as [|N]; [assumption|].
+    pose proof (occ_two (thrs s) t t' c G G' N). unfold gthr in *. lia. }
+  split; [exact O|]. split; [|split; [|split; [|split]]].
+  - intros t t' A B. destruct (W1 t A), (W1 t' B). apply TWO; assumption.
+  - intros t t' A B. destruct (W1 t A) as [G1 X1], (W2 t' B) as [G2 X2].
+    assert (t = t') by (apply TWO; assumption). subst t'.
+    pose proof (occ_ge (thrs s) t c G1) as Q. unfold gthr in *. unfold wt in Q. rewrite A in Q. cbn [wrun] in Q.
+    rewrite Nat.eqb_refl in Q. apply (count_occ_In Nat.eq_dec) in B. lia.
+  - intros t t' A B. destruct (W2 t A), (W2 t' B). apply TWO; assumption.
+  - intros t. destruct (le_lt_dec (length (thrs s)) t) as [G|G]; [destruct (OUT t G) as [_ Z]; rewrite Z; cbn; lia|].
+    pose proof (occ_ge (thrs s) t c G) as Q. unfold gthr. unfold wt in Q. lia.
+  - intros D t. rewrite D in O. split.
+    + intros A. destruct (W1 t A) as [G X]. pose proof (occ_ge (thrs s) t c G). unfold gthr in *. lia.
+    + intros A. destruct (W2 t A) as [G X]. pose proof (occ_ge (thrs s) t c G). unfold gthr in *. lia.
+Qed.
+
+(* ---------- deadlock freedom ---------- *)
+Lemma occ_pos_ex l c : 0 < occ l c -> exists t, t < length l /\ 0 < wt c (nth t l dflt_thr).
+Proof.
+  induction l as [|th l IH]; cbn [occ]; [lia|]. intros H.
+  destruct (Nat.eq_dec (wt c th) 0) as [Z|Z].
+  - destruct IH as (t & A & B); [lia|]. exists (S t). cbn [length nth]. split; [lia|exact B].
+  - exists 0. cbn [length nth]. split; lia.
+Qed.
+
+Lemma enabled_intro s t : err s = false -> t < length (thrs s) ->
+  (exists c, run (gthr s t) = TSusp c) \/
+  (exists c, run (gthr s t) = TRun c /\ live (tpc (gtask s c)) = true /\ (tpc (gtask s c) = PFlag -> flag (gtask s c) = true)) ->
+  enabled s t = true.
+Proof.
+  intros E L H. unfold enabled. rewrite E. cbn [negb andb].
+  destruct (nth_error (thrs s) t) as [th|] eqn:N; [|apply nth_error_None in N; lia].
+  unfold gthr in H. rewrite (nth_error_nth _ _ dflt_thr N) in H. destruct th as [r q]. cbn [run] in H.
+  destruct H as [(c & ->)|(c & -> & Lv & Fl)]; [reflexivity|].
+  destruct (tpc (gtask s c)); try discriminate; try reflexivity. apply Fl. reflexivity.
+Qed.
+
+(* a task that could take a step if an OS thread executed it *)
+Definition ready (s : st) (o : nat) : Prop :=
+  live (tpc (gtask s o)) = true /\ (tpc (gtask s o) = PFlag -> flag (gtask s o) = true).
+
+Lemma coro_ready ops s c : reachable ops s -> tk (gtask s c) = KCoro -> live (tpc (gtask s c)) = true -> ready s c.
+Proof.
+  intros R K Lv. split; [exact Lv|]. intros P. exfalso. destruct (reachable_inv _ _ R) as [_ I].
+  apply (i_bad _ I c). cbn [vw v_tv]. unfold tvs, tvw. rewrite K, P. reflexivity.
+Qed.
+
+Lemma ready_enabled ops s o : reachable ops s -> o < length (tasks s) -> ready s o -> exists t, enabled s t = true.
+Proof.
+  intros R Lo [Lv Fl]. pose proof (reachable_linv _ _ R) as LI. destruct (reachable_inv _ _ R) as [_ I].
+  pose proof (i_err _ I) as Er. cbn [vw v_err] in Er. pose proof (l_len _ _ _ LI) as Ln.
+  assert (RunC : forall t c, t < length (tasks s) -> run (gthr s t) = TRun c -> tk (gtask s c) = KCoro -> enabled s t = true).
+  { intros t c Lt Rn K. apply enabled_intro; [exact Er|lia|]. right. exists c.
+    destruct (lv_running _ _ _ t c LI Lt Rn K) as (Lc & _). split; [exact Rn|].
+    apply (coro_ready ops s c R K Lc). }
+  destruct (tk (gtask s o)) eqn:K.
+  - (* coroutine: it is somewhere *)
+    pose proof (l_occ _ _ _ LI o K) as O. unfold tvs, tvw, pf in O. cbn [fst snd] in O. rewrite Lv in O.
+    destruct (occ_pos_ex (thrs s) o ltac:(lia)) as (t & Lt & W). rewrite Ln in Lt.
+    unfold wt in W. destruct (run (nth t (thrs s) dflt_thr)) as [|c'|c'] eqn:Rn.
+    + exfalso. cbn [wrun] in W. pose proof (l_idle _ _ _ LI t Rn) as Z. rewrite Z in W. cbn in W. lia.
+    + destruct (tk (gtask s c')) eqn:K'; [exists t; eapply RunC; eassumption|].
+      exfalso. assert (c' = t) by (eapply running_plain_self; eassumption). subst c'.
+      destruct (l_plain _ _ _ LI t Lt K') as [(A & B & C)|[(c2 & A & B & C)|[(c2 & A & B)|(A & B)]]]; try congruence.
+      * rewrite B in W. cbn [wrun count_occ] in W. destruct (Nat.eqb_spec t o); [subst; congruence|lia].
+      * assert (c2 = t) by congruence. subst c2. unfold tvs, tvw, kd in B. cbn [fst] in B. congruence.
+    + exists t. apply enabled_intro; [exact Er|lia|]. left. exists c'. exact Rn.
+  - (* plain thread: its own OS thread executes it, or a nested queue *)
+    destruct (l_plain _ _ _ LI o Lo K) as [(A & B & C)|[(c2 & A & B & C)|[(c2 & A & B)|(A & B)]]].
+    + exists o. apply enabled_intro; [exact Er|lia|]. right. exists o. auto.
+    + exists o. eapply RunC; eassumption.
+    + exists o. apply enabled_intro; [exact Er|lia|]. left. exists c2. exact A.
+    + exfalso. unfold tvs, tvw, pf in B. cbn [fst snd] in B. rewrite B in Lv. discriminate.
+Qed.
+
+Lemma no_stuck_state ops s c : reachable ops s -> c < length (tasks s) -> tpc (gtask s c) <> PDone ->
+  exists t, enabled s t = true.
+Proof.
+  intros R Lc ND. destruct (reachable_inv _ _ R) as [_ I].
+  assert (Case : waiting s c \/ ready s c).
+  { unfold waiting, ready. pose proof (i_bad _ I c) as B. cbn [vw v_tv] in B. unfold tvs, tvw in B.
+    destruct (tpc (gtask s c)) eqn:P; try (right; split; [reflexivity|discriminate]); try (left; exact Logic.I); try congruence.
+    destruct (flag (gtask s c)); [right; split; [reflexivity|reflexivity]|left; reflexivity]. }
+  destruct Case as [W|Rd]; [|eapply ready_enabled; eassumption].
+  destruct (direct_handoff _ _ _ R W) as (_ & o & Ho & _).
+  assert (Lo : o < length (tasks s)).
+  { apply task_lt. unfold holds in Ho. intro Z. rewrite Z in Ho. exact Ho. }
+  eapply ready_enabled; [exact R|exact Lo|]. unfold holds in Ho. unfold ready.
+  destruct (tpc (gtask s o)); try contradiction; split; try reflexivity; try discriminate; intros _; exact Ho.
+Qed.
+
+(* terminal states: no thread enabled  =>  every declared contender has finished, the mutex is free again *)
+Lemma terminal_all_done ops s : reachable ops s -> (forall t, enabled s t = false) ->
+  (forall c, tpc (gtask s c) = PDone) /\ requests s = PNull /\ queue s = PNull /\ alog s = glog s.
+Proof.
+  intros R T.
+  assert (D : forall c, tpc (gtask s c) = PDone).
+  { intros c. destruct (le_lt_dec (length (tasks s)) c) as [G|G].
+    - unfold gtask. rewrite nth_overflow by exact G. reflexivity.
+    - destruct (pc_eq_dec (tpc (gtask s c)) PDone) as [E|E]; [exact E|]. exfalso.
+      destruct (no_stuck_state _ _ _ R G E) as (t & En). rewrite T in En. discriminate. }
+  split; [exact D|].
+  destruct (no_lost_request _ _ R) as (A & B & C & _); [|auto].
+  intros c H. unfold holds in H. rewrite D in H. exact H.
+Qed.
+
+(* bounded waiting: the grants that precede the grant of a pending request w are exactly the requests pending
+   ahead of it, all published before w *)
+Lemma bounded_waiting ops s w : reachable ops s -> waiting s w ->
+  exists a b, alog s = glog s ++ a ++ w :: b /\ ~ In w a /\ (forall x, In x a -> waiting s x).
+Proof.
+  intros R W. destruct (grant_once _ _ R) as (pend & E & ND & M & _).
+  apply M in W. destruct (in_split _ _ W) as (a & b & ->).
+  exists a, b. split; [exact E|]. split.
+  - apply NoDup_remove_2 in ND. intro Q. apply ND. apply in_or_app. left. exact Q.
+  - intros x Hx. apply M. apply in_or_app. left. exact Hx.
+Qed.
